@@ -119,3 +119,35 @@ package alert
 //@   props C09
 //@   ensures len(args) == 0 ==> result1 == nil && typeis(result0, int64) && as(result0, int64) == int64(event.State.Level)
 //@   ensures len(args) != 0 ==> result1 != nil
+
+// ---------------------------------------------------------------- service.go: UpdateHandlerSpec (C09)
+// "events go only to the currently registered handlers": updating a handler -- also under a new
+// id -- takes exactly the handler that was registered under the OLD id off the topic and puts the
+// new one on; the service's own table drops the old id and holds the new handler under the new id.
+//@ func (HandlerSpec).Validate
+//@   trusted
+//@   modifies nothing
+//@ func (*Service).createHandlerFromSpec
+//@   trusted
+//@   modifies nothing
+//@ func (HandlerSpecDAO).Replace
+//@   trusted
+//@   modifies nothing
+//@ func (HandlerSpecDAO).Create
+//@   trusted
+//@   modifies nothing
+//@ func (HandlerSpecDAO).Delete
+//@   trusted
+//@   modifies nothing
+//@ func =(*github.com/influxdata/kapacitor/alert.Topics).ReplaceHandler
+//@   trusted
+//@   modifies nothing
+//@ func (*Service).setTopicHandler
+//@   props C09
+//@   requires s != nil && s.handlers != nil
+//@   modifies map(s.handlers), map(s.handlers[topic])
+//@   ensures has(s.handlers, topic) && s.handlers[topic] != nil && has(s.handlers[topic], id) && s.handlers[topic][id] == h
+//@ func (*Service).UpdateHandlerSpec
+//@   props C09
+//@   requires s != nil && s.handlers != nil && s.specsDAO != nil && s.topics != nil
+//@   guardcall ReplaceHandler#1: arg0 == newSpec.Topic && arg1 == old(s.handlers[newSpec.Topic][oldSpec.ID].Handler) && arg2 == callresult(createHandlerFromSpec, 0).Handler
